@@ -130,6 +130,33 @@ int main(int argc, char **argv)
     DIRFILE *D = gd_open(argv[2], GD_RDWR);
     printf("open %d nfragments %d\n", gd_error(D), gd_error(D) ? 0 : gd_nfragments(D));
     if (gd_error(D)) return 3;
+    /* history before the flush: C12_PREOPS = comma separated list of
+     *   r:<field>          gd_getdata of 2 samples of <field> (the result, also a failure, is only reported)
+     *   i:<path>:<parent>  gd_include(<path>, <parent>, 0) of a fragment file that exists on disk
+     *   n                  gd_nframes */
+    if (getenv("C12_PREOPS") && getenv("C12_PREOPS")[0]) {
+      char *pre = strdup(getenv("C12_PREOPS")), *save = NULL, *q;
+      for (q = strtok_r(pre, ",", &save); q; q = strtok_r(NULL, ",", &save)) {
+        if (q[0] == 'r') {
+          double v[4];
+          size_t n = gd_getdata(D, q + 2, 0, 0, 0, 2, GD_FLOAT64, v);
+          printf("pre %s got %zu error %d\n", q, n, gd_error(D));
+        } else if (q[0] == 'i') {
+          char *path = q + 2, *c = strrchr(path, ':');
+          int parent = 0, fi;
+          if (c) { *c = 0; parent = atoi(c + 1); }
+          fi = gd_include(D, path, parent, 0);
+          printf("pre i:%s ret %d error %d\n", path, fi, gd_error(D));
+        } else if (q[0] == 'n') {
+          printf("pre n %lld error %d\n", (long long)gd_nframes(D), gd_error(D));
+        }
+      }
+      free(pre);
+    }
+    {
+      int i;
+      for (i = 0; i < D->n_fragment; i++) printf("fragname %d %s\n", i, D->fragment[i].cname);
+    }
     for (t = strtok(mods, ","); t; t = strtok(NULL, ",")) {
       char spec[128], name[32];
       int i, r1, r2;
